@@ -46,7 +46,7 @@ package text
 //@ func (*Caser).Capitalize
 //@   props C14 C01 C02 C03 C04 C05 C06 C07 C08 C09 C17 C19
 //@   option seq
-//@   requires caps: forall p int :: 0 <= p && p < len(c.capitalizations) ==> alnum(c.capitalizations[p])
+//@   requires [config] caps: forall p int :: 0 <= p && p < len(c.capitalizations) ==> alnum(c.capitalizations[p])
 //@   requires alnum(s)
 //@   ensures alnum: alnum(result)
 //@   invariant loop1: 0 - 1 <= rangeindex
@@ -54,13 +54,13 @@ package text
 //@ func (*Caser).Identifierize@ident
 //@   props C14 C01 C02 C03 C04 C05 C06 C07 C08 C09 C17 C19
 //@   option seq
-//@   requires caps: forall p int :: 0 <= p && p < len(c.capitalizations) ==> alnum(c.capitalizations[p])
+//@   requires [config] caps: forall p int :: 0 <= p && p < len(c.capitalizations) ==> alnum(c.capitalizations[p])
 //@   ensures valid-exported-identifier: len(result) > 0 && alnum(result) && isupper(result[0])
 //@   invariant loop1: 0 - 1 <= rangeindex && alnum(sb)
 
 //@ func (*Caser).IdentifierFromFileName@ident
 //@   props C14 C01 C02 C03 C04 C05 C06 C07 C08 C09 C17 C19
 //@   option seq
-//@   requires caps: forall p int :: 0 <= p && p < len(c.capitalizations) ==> alnum(c.capitalizations[p])
+//@   requires [config] caps: forall p int :: 0 <= p && p < len(c.capitalizations) ==> alnum(c.capitalizations[p])
 //@   ensures valid-exported-identifier: len(result) > 0 && alnum(result) && isupper(result[0])
 //@   invariant loop1: 0 - 1 <= rangeindex
